@@ -1790,6 +1790,13 @@ package leveldb
 //@   at before call makeInternalKey#*
 //@     assert [C20:internal-key-is-not-built-in-the-callers-buffer] isnil(arg0) || !sameblock(arg0, arg1)
 
+// A batch that is reset (the pooled batches of Put / Delete and of the write merge are) holds no records and counts
+// no bytes: what it held before must not be written again.
+//@ func (*Batch).Reset
+//@   props C10 C20 C01
+//@   safety off
+//@   ensures [C01,C10,C20:a-reset-batch-is-empty] len(b.data) == 0 && len(b.index) == 0 && b.internalLen == 0
+
 // C20: merging other writers into a write never extends the caller's batch: merged single records go to a batch
 // the DB owns (the one passed as ourBatch, or one from the pool; that the pool does not hand out the caller's batch
 // is assumed).
